@@ -79,11 +79,29 @@ def work(p):
     sys.path.insert(0, d)
     for case in p["cases"]:
         rng = random.Random(case["seed"])
-        name = "vfsess_" + case["id"]
+        name = modname = "vfsess_" + case["id"]
         path = os.path.join(d, name + ".py")
         open(path, "w").write(SOURCE)
         importlib.invalidate_caches()
-        M = importlib.import_module(name)
+        if case.get("main_ns"):
+            # the same source executed as the running script: its functions live in a namespace whose __name__ is "__main__"
+            # (a custom logger receives them like any other accepted function; only the store logger drops them)
+            ns = {"__name__": "__main__", "__file__": path}
+            exec(compile(SOURCE, path, "exec"), ns)  # noqa: S102
+
+            class NS:
+                def __getattr__(self, k):
+                    return ns[k]
+
+                def __setattr__(self, k, v):
+                    ns[k] = v
+
+                def __delattr__(self, k):
+                    del ns[k]
+
+            M, name = NS(), "__main__"
+        else:
+            M = importlib.import_module(name)
         quals = sorted(CALLS)
 
         class L(CallTraceLogger):
@@ -187,6 +205,8 @@ def work(p):
                 wit = {"case": case, "mode": mode, "block": b, "accepted": None if accepted is None else sorted(accepted), "called": called, "k": k, "rate": rate}
                 res17.shape(f"{mode}|{b}|{len(want)}|{accepted is None}|{rate}")
                 res17.seen("session_modes", mode)
+                if case.get("main_ns"):
+                    res17.count("session_blocks_over_script_namespace")
                 sfx = ":first-block" if b == 0 else ":later-block-of-a-session"
                 if rate in (None, 1):
                     res18.count("session_blocks_with_sampling_off")
@@ -225,7 +245,7 @@ def work(p):
             nflush = len(blocks) + (sum(1 for b in range(len(blocks)) if b % 2 == 1) if mode == "nested-same-logger" else 0)
             if lg.flushes != nflush:
                 res17.violation("flush-count:session", f"{mode}: {lg.flushes} flushes for {nflush} block exits", {"case": case, "mode": mode})
-        sys.modules.pop(name, None)
+        sys.modules.pop(modname, None)
         os.remove(path)
     sys.path.remove(d)
     shutil.rmtree(d, ignore_errors=True)
@@ -233,7 +253,7 @@ def work(p):
 
 
 def cases(ck, n):
-    return [{"id": f"{ck.seed}_{i}", "seed": f"sessions:{ck.seed}:{i}", "modes": ["trace_calls-same-logger", "trace-config-same-config", "nested-same-logger"], "blocks": 6, "koff": i, "rates": i % 2 == 1}
+    return [{"id": f"{ck.seed}_{i}", "seed": f"sessions:{ck.seed}:{i}", "modes": ["trace_calls-same-logger", "trace-config-same-config", "nested-same-logger"], "blocks": 6, "koff": i, "rates": i % 2 == 1, "main_ns": i % 4 == 3}
             for i in range(n)]
 
 
